@@ -56,7 +56,13 @@ def setup(it, nparts, op):
     part_infos = []
     for k in range(nparts):
         mag_index = it.new_array("magidx%d" % k, nmag[k], "int")
-        pars = it.new_obj(None, {"npars": Sym(npars[k]), "magnetism_index": mag_index},
+        # kernel_parameters counts a vector parameter once: 0 <= nkp <= npars
+        nkp = z3.Int("nkernelpars%d" % k)
+        it.assume(z3.And(nkp >= 0, nkp <= npars[k], z3.Implies(npars[k] > 0, nkp > 0)))
+        kernel_parameters = it.new_array("kernelpar%d" % k, nkp, "int")
+        pars = it.new_obj(None, {"npars": Sym(npars[k]), "magnetism_index": mag_index,
+                                 "kernel_parameters": kernel_parameters,
+                                 "nmagnetic": Sym(nmag[k])},
                           "parameters%d" % k)
         part_infos.append(it.new_obj(None, {"parameters": pars, "name": "part%d" % k},
                                      "info%d" % k))
@@ -90,7 +96,7 @@ def setup(it, nparts, op):
                                   "num_weights": nw}, "part_details")
     it.summaries["sasmodels.details.make_details"] = Summary(make_details_summary,
                                                              "make_details (contract C01)")
-    sym = dict(npars=npars, nmag=nmag, NW=NW, nq=nq, NP=NP, NMAG=NMAG, NV=NV, s=s,
+    sym = dict(npars=npars, nmag=nmag, nkp=[z3.Int("nkernelpars%d" % k) for k in range(nparts)], NW=NW, nq=nq, NP=NP, NMAG=NMAG, NV=NV, s=s,
                total=total, pad=pad)
     return info, kernels, details, values, calls, Rs, part_infos, sym
 
@@ -131,7 +137,24 @@ def _check_one(reg, op, nparts, c08_replay):
         len_before = details.attrs["length"].buf.get
         off_before = details.attrs["offset"].buf.get
         try:
-            out = it.call(iq, [mk, details, values, cutoff, False])
+            magnetic = fresh("magnetic", "bool")
+            magnetic_e = magnetic.e
+            # C06 contract of make_kernel_args: the flag is set iff some
+            # magnetisation slot of the combined vector is non-zero.
+            # ANY(lo, hi) <=> exists j in [lo, hi): V[j] != 0, used through the
+            # lemma instance any_split: ANY(a, c) = ANY(a, b) or ANY(b, c), ANY(a, a) = False
+            ANY = z3.Function("any_nonzero_V", z3.IntSort(), z3.IntSort(), z3.BoolSort())
+            m0 = sym["NV"] - 3 * sym["NMAG"]
+            bounds = [m0]
+            for k_ in range(nparts):
+                bounds.append(bounds[-1] + 3 * sym["nmag"][k_])
+            it.assume(magnetic_e == z3.And(sym["NMAG"] > 0, ANY(bounds[0], bounds[-1])))
+            it.assume(ANY(bounds[0], bounds[-1]) ==
+                      z3.Or(*[ANY(bounds[i], bounds[i + 1]) for i in range(nparts)]))
+            for i in range(nparts):
+                it.assume(z3.Implies(sym["nmag"][i] == 0, z3.Not(ANY(bounds[i], bounds[i + 1]))))
+            flag_goals = []
+            out = it.call(iq, [mk, details, values, cutoff, magnetic])
         except IRaise as exc:
             reg.prove("%s.Iq.no_exception.%s" % (PROP, tag), it.pc, False, function=fn)
             return
@@ -191,11 +214,18 @@ def _check_one(reg, op, nparts, c08_replay):
                              num_expr(kd.attrs["num_weights"]) == NW,
                              z3.BoolVal(kd.attrs["info"] is part_infos[k])),
                       function=MOD + "._MixtureParts._part_details", replay=rp)
-            reg.prove("%s.part_call.cutoff_magnetic_forwarded.%s.k%d" % (PROP, tag, k), pc,
-                      z3.And(num_expr(kcut) == num_expr(cutoff), z3.BoolVal(kmag is False)),
-                      function=fn)
+            reg.prove("%s.part_call.cutoff_forwarded.%s.k%d" % (PROP, tag, k), pc,
+                      num_expr(kcut) == num_expr(cutoff), function=fn)
+            # "component k evaluated alone": alone, its magnetic kernel is
+            # selected iff one of ITS magnetisation slots is non-zero
+            from vp.pyvc import bool_expr
+            own = z3.And(nmk > 0, ANY(M, M + 3 * nmk))
+            flag_goals.append(bool_expr(kmag) == z3.And(magnetic_e, own))
             P = P + npk + s
             M = M + 3 * nmk
+        reg.prove("%s.part_call.magnetic_flag_is_the_parts_own.%s" % (PROP, tag), pc,
+                  z3.And(*flag_goals), function=fn,
+                  replay=c08_replay.replay_magnetic_flag if nparts >= 2 else None)
         # combination
         j = z3.Int("jq")
         scale, bkg = V(z3.IntVal(0)), V(z3.IntVal(1))
